@@ -60,8 +60,12 @@
     of the parse tree: without the group the callee is a member node, which is the method-call
     form, and that is exactly what `parse` returns for `o.f(x)` (kernel-checked example below).
 
+  * `lexed_opLexemes`, `exactly_lexed`, `span_nested_lexed` — FROM THE SOURCE TEXT: for lexed input
+    the hypotheses on the tokens (`OpLexemes`, `TokensOrdered`, no end-of-file token) are theorems
+    about `lex` (`Proofs/LexOpLexemes`), provided no operator is named `<num>`, `<str>`, `<time>`
+    or `<sym>`.
+
   WHAT IS NOT PROVED
-  * `OpLexemes` is a hypothesis, not derived from the lexer.
   * In `redundant_parens` the hypothesis "still respects" is stated for every tree related to `t`
     by `UG p e` (they differ only in the spans of the ancestors, which `Respects` ignores).
   * Non-vacuity: binding powers are now bits (`Yae.BP`), so `parse` is evaluated by the kernel:
@@ -71,6 +75,7 @@ import Yae.Proofs.ParseCompleteTop
 import Yae.Proofs.ParseUngroupTop
 import Yae.Proofs.ParseYieldAll
 import Yae.Props.C09
+import Yae.Proofs.LexOpLexemes
 namespace Yae.C08
 open Yae
 
@@ -365,6 +370,37 @@ theorem redundant_parens {ops : List Operator} (hW : WFOps ops) {times : List (S
     ∃ t', UG p e t t' ∧ parse ops times (dropTwo toks a b) = .ok t' :=
   parse_ungroup hW.grammar hL hord htk h hG hsub hR
 
+/-! ## from the source text: lexer and parser together -/
+
+/-- Lexed input satisfies the hypothesis `OpLexemes`: a token produced by any rule but the ten
+literal patterns carries its kind as lexeme; so it suffices that no operator is NAMED like one of
+the literal kinds `<num>`, `<str>`, `<time>`, `<sym>`. -/
+theorem lexed_opLexemes {ops : List Operator} (hops : ∀ o ∈ ops, o.kind ∉ literalKinds)
+    {s : List Char} {ts : List Token} (h : lex ops s = .ok ts) : OpLexemes ops ts :=
+  Yae.lexed_opLexemes hops h
+
+/-- **From the source text.**  For a well-formed operator table none of whose operators is named
+like a literal kind: on the tokens `lex` produces for ANY source text, `parse` returns `t` if and
+only if `t` yields exactly those tokens and respects the declarations — no hypothesis on the
+tokens is left (`OpLexemes`, the absence of an end-of-file token and `TokensOrdered` are theorems
+about `lex`). -/
+theorem exactly_lexed {ops : List Operator} (hW : WFOps ops)
+    (hlit : ∀ o ∈ ops, o.kind ∉ literalKinds) {times : List (String × Int)} {s : List Char}
+    {ts : List Token} (hl : lex ops s = .ok ts) {t : Expr} :
+    parse ops times ts = .ok t ↔
+      (Yields (mkEnv ops times ts) t 0 ts.length ∧ Respects (newGrammar ops) t) :=
+  exactly hW (Yae.lexed_opLexemes hlit hl)
+    (lexed_no_eof (fun o ho e => hW.1 o ho (by rw [e]; decide)) hl)
+
+/-- … and every node of the tree parsed from lexed input records exactly its span and nests its
+children (`span_exact`, `span_nested` with their hypothesis discharged by the lexer). -/
+theorem span_nested_lexed {ops : List Operator} (hops : ∀ o ∈ ops, o.kind ≠ "<END-OF-FILE>")
+    {times : List (String × Int)} {s : List Char} {ts : List Token} (hl : lex ops s = .ok ts)
+    {t : Expr} (h : parse ops times ts = .ok t) : t.All Expr.spanNested :=
+  span_nested hops (lexed_ordered hl) h
+
+example : WFOps builtinOps ∧ ∀ o ∈ builtinOps, o.kind ∉ literalKinds := ⟨wf_builtin, by decide⟩
+
 /-! ## non-vacuity: the parser evaluated by the kernel -/
 
 def isSyntaxErr : Except ParseErr Expr → Bool
@@ -539,3 +575,6 @@ end Yae.C08
 #print axioms Yae.C08.required_example
 #print axioms Yae.C08.closer_needed
 #print axioms Yae.C08.nonneg_prefix_needed
+#print axioms Yae.C08.lexed_opLexemes
+#print axioms Yae.C08.exactly_lexed
+#print axioms Yae.C08.span_nested_lexed
